@@ -371,3 +371,7 @@ MANIFEST = {
     "technique": "machine-checked proof in Coq (invariants and a limit-monotonicity simulation lifted through the query model over the Writer model; limit value through the server model) + octet-exact correspondence on both transports + extracted pair-relation oracle",
     "design_ref": "DESIGN.md section 4 (C04)",
 }
+
+
+# pkg-tsigw: theorems about the TSIG-bearing responses of the extended composed model (Model/ServerWT.v), append-only
+CHECK["theorems"] = list(CHECK["theorems"]) + ['c04_tsig_within_limit_partial', 'c04_tsig_or_tc']
